@@ -401,6 +401,13 @@ class ExtraOps:
                                                  "messages": d.messages[:3]}, entry=t)
                 return
         empty = len(truth) == 0
+        if d.is_doomed and empty and not w.fault.fired and t.mv is not None \
+                and t.mv.strength() in ("list", "bag", "count+subbag") and len(t.mv.rows) > 0:
+            # the tree itself is empty, but the sequence of calls that built it is not (history model, independent of the
+            # library's tree): the verdict dooms the relation the user asked for
+            self.violate("doomed_nonempty", {"mode": mode, "rows_by_history_model": len(t.mv.rows),
+                                             "messages": d.messages[:3]}, entry=t)
+            return
         if d.is_doomed and not empty:
             self.violate("doomed_nonempty", {"mode": mode, "rows": len(truth), "messages": d.messages[:3]}, entry=t)
         if mode == "truth" and empty and not d.is_doomed:
